@@ -46,7 +46,7 @@ Proof. exact (fun w => feedbacks_run c raises writes fbval (nfb c) 0%nat w). Qed
 
 (* the feedback phase comes after the components and before robotPeriodic, in every mode *)
 Theorem C11_feedbacks_then_robot_periodic :
-  do_periodics c = PSeq (pseq (map PFeedback (seq 0 (nfb c)))) (PGuard (PInvoke SRobotPeriodic)).
+  do_periodics c = pseq [ pseq (map PFeedback (seq 0 (nfb c))); PGuard (PInvoke SRobotPeriodic) ].
 Proof. exact eq_refl. Qed.
 End C11.
 
